@@ -174,7 +174,7 @@ class StmtMixin:
                 raise Unsupported("del target")
 
     def x_Assert(self, node):
-        c = as_bool(self.eval(node.test))
+        c = self.truthy(self.eval(node.test), node)
         self.partial(c, "AssertionError", node, "assert")
 
     def x_Raise(self, node):
@@ -225,7 +225,7 @@ class StmtMixin:
                 R.EXC_PARENT[q] = b.id
 
     def x_If(self, node):
-        c = as_bool(self.eval(node.test))
+        c = self.truthy(self.eval(node.test), node)
         if self.branch(c, node.lineno):
             self.exec_block(node.body)
         else:
@@ -365,6 +365,8 @@ class StmtMixin:
             elem = lambda i: PySeq([self.retag(L.nth(a.term, i), self.elem_tag(a)), self.retag(L.nth(b.term, i), self.elem_tag(b))])
             seqv = a
         else:
+            if self.tainted(src):
+                self.effect("iteration", self.exact_builtin_container(src), node)
             seqv = self.seq_of(src)
             n = L.len_(seqv.term)
             et = self.elem_tag(seqv)
@@ -408,7 +410,7 @@ class StmtMixin:
         variant0 = None
         self.havoc(names, fields, spec)
         self.assume_invariant(spec, ordinal, None, None)
-        c = as_bool(self.eval(node.test))
+        c = self.truthy(self.eval(node.test), node)
         if self.branch(c, node.lineno, tag="loop%s" % ordinal):
             if spec.get("decreases"):
                 variant0 = as_int(self.spec_eval(spec["decreases"], {}))
